@@ -18,7 +18,7 @@ import (
 func init() {
 	Registry["C19"] = &Check{
 		Scenarios: c19Scenarios,
-		Rule: "S in {1,2} streams (stream numbers rotating over {0,1,5}, {16,0,65535}, {21,15,0}, {1,17,16} from one history to the next): per stream every sequence of <=2 messages over sizes {20 (header only), 40, 1100 bytes} from a list of eight; each stream's bytes cut into <=3 chunks at every choice of <=2 cut points from {inside the first header, header/body border, inside the body, message border, inside the second header, spanning point}; ALL merges (interleavings) of the per-stream chunk sequences; then EOF. Bursts: between the two chunks of one stream's 40-byte message (cut at 10, 20, 30) a burst of another stream {30, 64, 66, 70, 140 x 1000 bytes, 100 x 1100, 3 x 30000, 192 x 1024, 256 / 257 / 1000 x 40, 300 x 100} arrives, one message per chunk or re-cut into 8000-byte chunks, with or without a short message of a third stream in its middle (stream buffers of 30 KB to 192 KiB). More than sixteen streams: 15, 16, 17 or 20 streams deliver a whole message each behind the stalled first message of stream 0; behind its stalled second message one of them delivers again and a never-seen stream delivers for the first time (either order, four size assignments). No stream information: three messages (40, 1100, 20 bytes) on an association that delivers data without SndRcvInfo, cut at every offset of the first 60 bytes and at later offsets, and in 1-, 7- and 100-byte chunks. Empty reads: after the first k bytes (k = 1..20, 30) of a stream's message a read returns 0 bytes and no error (once or twice), then a whole message of another stream arrives, then the rest. In every other history the application has pinned a writer stream (SetWriterStream): replies still follow their requests. S = 5: the first stream's message (40 or 1100 bytes) in two chunks around whole messages of four other streams with sizes from {40,48,56,80} (all 256 assignments x 24 arrival orders). S = 3: single messages of 20, 40 and 48 bytes per stream with <=1 cut, all merges (thorough: also the general family with <=1 cut). The chunks are fed through the in-memory SCTP backend (partial delivery: a read returns at most the buffer size of the head chunk) to a real diam.Conn created with diam.NewConn over diam.NewSCTPConnBackend, i.e. consumed by the library's own reader loop; the handler records (message, MessageStream()) and answers. One deterministic schedule per history (the quantifier is over chunk histories). Last clause: additionally the deferred-answer grid of C16 (all 16 stream pairs x 0-2 temporarily failing write attempts) and two application goroutines answering requests of streams {3,5} / {0,7} concurrently, every schedule up to preemption bound 2.",
+		Rule: "S in {1,2} streams (stream numbers rotating over {0,1,5}, {16,0,65535}, {21,15,0}, {1,17,16} from one history to the next): per stream every sequence of <=2 messages over sizes {20 (header only), 40, 1100 bytes} from a list of eight; each stream's bytes cut into <=3 chunks at every choice of <=2 cut points from {inside the first header, header/body border, inside the body, message border, inside the second header, spanning point}; ALL merges (interleavings) of the per-stream chunk sequences; then EOF. Bursts: between the two chunks of one stream's 40-byte message (cut at 10, 20, 30) a burst of another stream {30, 64, 66, 70, 140 x 1000 bytes, 100 x 1100, 3 x 30000, 192 x 1024, 256 / 257 / 1000 x 40, 300 x 100} arrives, one message per chunk or re-cut into 8000-byte chunks, with or without a short message of a third stream in its middle (stream buffers of 30 KB to 192 KiB). More than sixteen streams: 15, 16, 17 or 20 streams deliver a whole message each behind the stalled first message of stream 0; behind its stalled second message one of them delivers again and a never-seen stream delivers for the first time (either order, four size assignments). A long-lived association: 72 rounds in which a 1 MiB message waits in its stream buffer behind a stalled message of another stream (72 MiB through the buffers in total). No stream information: three messages (40, 1100, 20 bytes) on an association that delivers data without SndRcvInfo, cut at every offset of the first 60 bytes and at later offsets, and in 1-, 7- and 100-byte chunks. Empty reads: after the first k bytes (k = 1..20, 30) of a stream's message a read returns 0 bytes and no error (once or twice), then a whole message of another stream arrives, then the rest. In every other history the application has pinned a writer stream (SetWriterStream): replies still follow their requests. S = 5: the first stream's message (40 or 1100 bytes) in two chunks around whole messages of four other streams with sizes from {40,48,56,80} (all 256 assignments x 24 arrival orders). S = 3: single messages of 20, 40 and 48 bytes per stream with <=1 cut, all merges (thorough: also the general family with <=1 cut). The chunks are fed through the in-memory SCTP backend (partial delivery: a read returns at most the buffer size of the head chunk) to a real diam.Conn created with diam.NewConn over diam.NewSCTPConnBackend, i.e. consumed by the library's own reader loop; the handler records (message, MessageStream()) and answers. One deterministic schedule per history (the quantifier is over chunk histories). Last clause: additionally the deferred-answer grid of C16 (all 16 stream pairs x 0-2 temporarily failing write attempts) and two application goroutines answering requests of streams {3,5} / {0,7} concurrently, every schedule up to preemption bound 2.",
 		Assume: []string{"the in-memory backend models one-to-one-socket recvmsg partial delivery (hook diam/sctp_verif.go, build tag verif)", "single default schedule per history"},
 		QuickBudget: 150, ThoroughBudget: 2400,
 	}
@@ -359,6 +359,10 @@ func c19Scenarios(tier string) []*Scenario {
 	// more streams than the 16 the library sizes its tables for: 15..20 parked streams, then a
 	// second round in which a parked stream and a never-seen stream deliver behind a stalled message
 	out = append(out, &Scenario{Name: "streams/more-than-sixteen", Seq: c19Many})
+	// a long-lived association: 72 rounds in which a 1 MiB message of one stream waits in its buffer
+	// behind a stalled message of another - 72 MiB pass through the stream buffers in total, never
+	// more than 1 MiB at a time
+	out = append(out, &Scenario{Name: "streams/long-lived-association", Seq: c19LongLived})
 	// an association that delivers data WITHOUT stream information (the socket is not subscribed to
 	// the data-io event, or the stack does not fill it in): one byte stream, every cut
 	out = append(out, &Scenario{Name: "streams/no-stream-information", Seq: c19NoInfo})
@@ -635,4 +639,33 @@ func c19EmptyRead(r *SeqResult) {
 	if r.Sample == "" {
 		r.Sample = "k bytes of one stream's message, an empty read, a whole message of another stream, the rest"
 	}
+}
+
+// c19LongLived: cumulative volume, not instantaneous size.
+func c19LongLived(r *SeqResult) {
+	saved := c19Streams
+	savedSteps := vs.DefaultMaxSteps
+	vs.DefaultMaxSteps = 5000000
+	defer func() { c19Streams = saved; vs.DefaultMaxSteps = savedSteps; r.Capped += c19Capped; c19Capped = 0 }()
+	c19Streams = []uint16{1, 2}
+	const rounds = 72
+	big := 1 << 20
+	var a, b streamCfg
+	var order []int
+	for i := 0; i < rounds; i++ {
+		ma := c19Msg(0, i, 8192) // (a larger stalled message: the parked megabyte is drained in 8 KiB reads)
+		a.sizes = append(a.sizes, 8192)
+		a.chunks = append(a.chunks, ma[:20], ma[20:])
+		b.sizes = append(b.sizes, big)
+		b.chunks = append(b.chunks, c19Msg(1, i, big))
+		order = append(order, 0, 1, 0)
+	}
+	a.desc, b.desc = fmt.Sprintf("%d messages of 8 KiB, each cut after its header", rounds), fmt.Sprintf("%d messages of 1 MiB, each arriving whole between the two chunks of a stream-1 message", rounds)
+	r.Cases++
+	r.Distinct++
+	if v := c19Run([]streamCfg{a, b}, order); v != "" {
+		r.Violation = fmt.Sprintf("%s | stream 1: %s; stream 2: %s", v, a.desc, b.desc)
+		r.Case = map[string]interface{}{"long-lived": rounds}
+	}
+	r.Sample = "72 rounds: a 1 MiB message of stream 2 parked behind a stalled 8 KiB message of stream 1"
 }
